@@ -5,10 +5,16 @@ recv_trace_* of cmds/recv.c, write_buffer and the metadata senders of
 cmds/record.c (extracted verbatim), read_all / write_all / writev_all of
 utils/utils.c run with interposed partial reads/writes and a re-segmenting
 relay, against the model; plus the property monitor on the received directory.
+End to end (harness/c16_e2e.py, harness/c16_send.c): a real `uftrace recv` on a loopback port; synthesized
+complete data directories (function records, per-cpu perf files with holes and cpu numbers >= 10) sent by the
+real senders, the received directory compared byte for byte with the local one and `uftrace replay / report /
+dump / dump --chrome / graph / info` of both directories compared; real `uftrace record` next to real
+`uftrace record --host` of one program, compared after canonicalising pids, times and addresses.
 """
 import importlib.util
 import json
 import os
+import re
 import shutil
 import subprocess
 import time
@@ -237,14 +243,16 @@ def rand_payload(rng, big_ok, seedc):
 def rand_client(rng, name, big_ok, style=None):
     steps = [("N", name)]
     tids = [rng.choice([1, 7, 1234, 99999, 4194304, -5, 2147483647]) for _ in range(rng.randint(1, 3))]
+    # the cpus of this client that produce kernel / perf data: a few of a machine's cpus, with holes, also >= 10
+    cpus = rng.sample(CPUS, rng.randint(1, 4))
     for _ in range(rng.randint(0, 8)):
         r = rng.random()
         if r < 0.7:
             steps.append((rng.choice(["D", "WB"]), rng.choice(tids), rand_payload(rng, big_ok, 0)))
-        elif r < 0.85:
-            steps.append(("K", rng.randint(0, 3), rand_payload(rng, False, 0)))
+        elif r < 0.82:
+            steps.append(("K", rng.choice(cpus), rand_payload(rng, False, 0)))
         else:
-            steps.append(("P", rng.randint(0, 3), rand_payload(rng, False, 0)))
+            steps.append(("P", rng.choice(cpus), rand_payload(rng, False, 0)))
     style = style or rng.choice(["single", "all", "all", "bare"])
     meta = [(b"task.txt", rand_payload(rng, False, 0)),
             (b"sid-%08x.map" % rng.randrange(1 << 32), rand_payload(rng, False, 0)),
@@ -283,6 +291,7 @@ def rand_client(rng, name, big_ok, style=None):
     return steps
 
 
+CPUS = [0, 1, 2, 3, 5, 7, 9, 10, 11, 12, 15, 16, 31, 63, 64, 99, 100, 127, 128, 255, 256, 1023, 4095]
 SEGPATS = ["1", "2", "3", "5", "7", "8", "4,4", "1,2,3,4,5,6,7,8,9", "12", "13,1", "1,0,2,0", "0,3",
            "4096", "65536", "-", "100,1", "9,0,0,31"]
 WPATS = ["-", "1", "1,-1,2", "3,5,-1,100000", "4096", "8", "7,-1", "12,1", "65536,-1,-1,1"]
@@ -679,6 +688,286 @@ def run_harness(ctx, exe, lines, timeout=1500):
     return r, impl, info
 
 
+FIND_PERFIDX = "C16-DUMP-PERFIDX"
+
+
+def load_e2e():
+    spec = importlib.util.spec_from_file_location("c16_e2e", os.path.join(C.VERIF, "harness/c16_e2e.py"))
+    mod = importlib.util.module_from_spec(spec)
+    spec.loader.exec_module(mod)
+    return mod
+
+
+def build_sender(ctx):
+    exe = os.path.join(ctx.scratch, "c16_send")
+    ok, log = ctx.cc(exe, [os.path.join(C.VERIF, "harness/c16_send.c"), os.path.join(ctx.src, "utils/utils.c"),
+                           os.path.join(ctx.src, "utils/debug.c")],
+                     extra=["-I", os.path.join(ctx.scratch, "gen"), "-lpthread", "-ldl"])
+    return (exe if ok else None), log[-3000:]
+
+
+FORCED_CPUS = [(16, [13]), (12, [2, 10]), (4, [0]), (4, [0, 1, 2, 3]), (24, [1, 11, 23]), (300, [7, 100, 299]), (12, [10, 11])]
+
+
+def forced_cpus():
+    """built-in shapes, then the witnesses kept under corpus/C16 ({"nr_cpu": n, "cpus": [...]})"""
+    out = list(FORCED_CPUS)
+    cdir = os.path.join(C.VERIF, "corpus", "C16")
+    if os.path.isdir(cdir):
+        for f in sorted(os.listdir(cdir)):
+            if f.endswith(".json"):
+                j = json.load(open(os.path.join(cdir, f)))
+                if "nr_cpu" in j and (j["nr_cpu"], j["cpus"]) not in out:
+                    out.append((j["nr_cpu"], j["cpus"]))
+    return out
+
+
+def glob_order(cpus):
+    """the order glob("perf-cpu*.dat") returns the files in (byte order of the names, LC_ALL=C)"""
+    return sorted(cpus, key=lambda c: ("perf-cpu%d.dat" % c).encode())
+
+
+def run_e2e(ctx, report):
+    """real `uftrace recv` + real senders + real analysis commands; returns a dict of counters"""
+    E = load_e2e()
+    st = {"synth_runs": 0, "synth_dirs_equal": 0, "synth_cmd_pairs": 0, "synth_cmd_pairs_equal": 0, "concurrent_clients": 0,
+          "dump_label_only_differences": 0, "real_variants": 0, "real_variants_with_sched_events": 0, "skipped": None}
+    okm, log = ctx.make()
+    uftrace = os.path.join(ctx.src, "uftrace")
+    if not okm or not os.path.exists(uftrace):
+        report("e2e-build", {"kind": "harness-build-failed", "what": "make failed", "log": log[-1500:]}, True)
+        return st, []
+    sender, log = build_sender(ctx)
+    if not sender:
+        report("e2e-build", {"kind": "harness-build-failed (anchored code changed shape?)", "what": "c16_send.c", "log": log}, True)
+        return st, []
+    root = os.path.join(ctx.scratch, "e2e")
+    recvroot = os.path.join(root, "recv")
+    os.makedirs(recvroot)
+    srv = E.RecvServer(uftrace, recvroot)
+    if not srv.start():
+        report("e2e-recv", {"kind": "harness-failed", "what": "uftrace recv did not start listening", "log": srv.log()}, True)
+        return st, []
+    rng = ctx.rng
+    samples = []
+    perfidx = []           # concrete cases of the dump label finding
+    label_q = []           # (run idx, which, cpus with data, labels shown)
+    try:
+        # ---- synthesized runs --------------------------------------------------------------
+        forced = forced_cpus()
+        n = len(forced) + (9 if ctx.tier == "quick" else 150)
+        runs = [E.gen_run(rng, i, force_cpus=(forced[i] if i < len(forced) else None)) for i in range(n)]
+        local = {}
+        for r in runs:
+            d = os.path.join(root, "l%d" % r.idx)
+            r.write_local(d)
+            local[r.idx] = d
+        # every third group of three is sent by three clients at once, in small chunks
+        i = 0
+        groups = []
+        while i < len(runs):
+            k = 3 if (len(groups) % 3 == 1 and i + 3 <= len(runs)) else 1
+            groups.append(runs[i:i + k])
+            i += k
+        send_fail = {}
+        for g in groups:
+            if len(g) == 1:
+                r = g[0]
+                rc, err = E.send_dir(sender, srv.port, local[r.idx], "r%d" % r.idx, root, rng.choice([16, 64, 4096, 1 << 20]))
+                if rc != 0:
+                    send_fail[r.idx] = "sender rc=%d %s" % (rc, err)
+            else:
+                st["concurrent_clients"] += len(g)
+                procs = [(r, E.send_dir_async(sender, srv.port, local[r.idx], "r%d" % r.idx, root, rng.choice([8, 24, 64])))
+                         for r in g]
+                for r, (p, tmp) in procs:
+                    try:
+                        _, err = p.communicate(timeout=60)
+                        if p.returncode != 0:
+                            send_fail[r.idx] = "sender rc=%d %s" % (p.returncode, err.decode("latin-1")[-300:])
+                    except subprocess.TimeoutExpired:
+                        p.kill()
+                        send_fail[r.idx] = "sender timeout"
+                    shutil.rmtree(tmp, ignore_errors=True)
+        for r in runs:
+            st["synth_runs"] += 1
+            rd = os.path.join(recvroot, "r%d" % r.idx)
+            lf = E.read_dir(local[r.idx])
+            want = E.expected_received(lf)
+            got = E.wait_received(rd, want)
+            case = {"run": r.summary(), "how": "c16_send (real senders) -> uftrace recv; local directory synthesized from seed"}
+            if r.idx in send_fail or not srv.alive():
+                report("e2e-send%d" % r.idx, dict(case, kind="property-violated-on-implementation",
+                                                  what="sending failed: %s; receiver alive: %s; %s" %
+                                                  (send_fail.get(r.idx), srv.alive(), srv.log()[-300:])))
+                if not srv.alive():
+                    break
+                continue
+            bad = E.diff_files(got, want)
+            if bad:
+                report("e2e-dir%d" % r.idx, dict(case, kind="property-violated-on-implementation", what="received directory: " + bad,
+                                                 local_files={k: len(v or b"") for k, v in lf.items()},
+                                                 received_files={k: len(v or b"") for k, v in got.items()},
+                                                 theorem="c16_network_equals_local, c16_perf_files_preserved"))
+                continue
+            st["synth_dirs_equal"] += 1
+            ol, og = E.outputs(uftrace, local[r.idx]), E.outputs(uftrace, rd)
+            for k in ol:
+                st["synth_cmd_pairs"] += 1
+                if ol[k] == og[k] and ol[k][0] == 0:
+                    st["synth_cmd_pairs_equal"] += 1
+                    continue
+                if k == "dump" and ol[k][0] == 0 and og[k][0] == 0 and E.strip_perf_labels(ol[k][1]) == E.strip_perf_labels(og[k][1]):
+                    st["dump_label_only_differences"] += 1
+                    continue            # judged below by the label monitor
+                report("e2e-%s%d" % ("-".join(w.strip("-") for w in k.split()[:2]), r.idx),
+                       dict(case, kind="property-violated-on-implementation", cmd="uftrace " + k,
+                            what="`uftrace %s` of the received directory differs from the local one: %s (rc %d / %d) %s" %
+                                 (k, E.first_diff(ol[k][1], og[k][1]), ol[k][0], og[k][0], (ol[k][2] or og[k][2])[:200]),
+                            local_output=ol[k][1][:2500].decode("latin-1"), received_output=og[k][1][:2500].decode("latin-1"),
+                            theorem="c16_network_equals_local, c16_perf_reader_ignores_empty_files"))
+            # the per-cpu labels of `uftrace dump`: each must name the file whose events follow
+            for which, o, files in (("local", ol["dump"], lf), ("received", og["dump"], got)):
+                if o[0] != 0:
+                    continue
+                labels = [nn for nn, _ in E.dump_perf_blocks(o[1])]
+                with_data = [int(re.fullmatch(r"perf-cpu(\d+)\.dat", f).group(1)) for f, b in files.items()
+                             if re.fullmatch(r"perf-cpu(\d+)\.dat", f) and b]
+                all_cpus = [int(re.fullmatch(r"perf-cpu(\d+)\.dat", f).group(1)) for f in files
+                            if re.fullmatch(r"perf-cpu(\d+)\.dat", f)]
+                label_q.append((r, which, glob_order(all_cpus), set(with_data), labels))
+            if len(samples) < 3:
+                samples.append({"e2e_run": r.summary(), "replay_head": ol["replay"][1][:300].decode("latin-1")})
+        # the label model (Net.dumpLabels): the repaired printer and the printer as it is
+        if label_q:
+            ml = []
+            for r, which, order, data, labels in label_q:
+                toks = " ".join("%d:%d" % (c, 1 if c in data else 0) for c in order) or "-"
+                ml += ["perflabels 1 " + toks, "perflabels 0 " + toks]
+            mo = run_model(ml)
+            per_run = {}
+            for j, (r, which, order, data, labels) in enumerate(label_q):
+                m1 = [int(x) for x in mo[2 * j].split()] if mo[2 * j] != "-" else []
+                m0 = [int(x) for x in mo[2 * j + 1].split()] if mo[2 * j + 1] != "-" else []
+                mon_bad = sorted(labels) != sorted(data)          # monitor: the labels are exactly the cpus that have events
+                per_run.setdefault(r.idx, []).append((which, labels, m1, m0, mon_bad, r))
+            for idx, lst in per_run.items():
+                for which, labels, m1, m0, mon_bad, r in lst:
+                    if labels == m1 and not mon_bad:
+                        continue
+                    rep = {"run": r.summary(), "which_directory": which, "labels_shown": labels, "cpus_with_events": sorted(r.used_cpus()),
+                           "model_fixed": m1, "model_as_it_is": m0, "cmd": "uftrace dump",
+                           "theorem": "c16_dump_perf_labels; c16_prefix_dump_perf_label_witness"}
+                    if labels == m0 and m0 != m1:
+                        perfidx.append(rep)
+                    else:
+                        report("e2e-dumplabel%d" % idx, dict(rep, kind="property-violated-on-implementation" if mon_bad else "model-code-disagreement",
+                                                              what="`uftrace dump` labels the per-cpu blocks %r, the cpus with events are %r" %
+                                                              (labels, sorted(r.used_cpus()))), nfi=not mon_bad)
+        # ---- real recordings -----------------------------------------------------------------
+        real = os.path.join(root, "real")
+        os.makedirs(real)
+        prog, plog = E.build_prog(real)
+        if not prog:
+            st["skipped"] = "gcc -pg failed: " + plog[-200:]
+        else:
+            cpu, ncpu = E.pin_cpu()
+            libm = os.path.join(ctx.src, "libmcount")
+            variants = [("event", [], []), ("noevent", ["--no-event"], [])]
+            if ctx.tier == "thorough":
+                variants += [("event-thread", [], ["t"]), ("noevent-thread", ["--no-event"], ["t"])]
+            for vname, extra, pargs in variants:
+                st["real_variants"] += 1
+                ld = os.path.join(real, "local-%s.data" % vname)
+                nname = "net-%s.data" % vname
+                rc1, e1 = E.record(uftrace, libm, real, ld, prog, pargs, cpu, extra)
+                rc2, e2 = E.record(uftrace, libm, real, nname, prog, pargs, cpu,
+                                   extra + ["--host", "127.0.0.1", "--port", str(srv.port)])
+                case = {"program": "harness/c16_e2e.py PROG_C (main: compute, wait_for_io -> usleep(30ms), compute)", "args": pargs,
+                        "pinned_to_cpu": cpu, "cpus_available": ncpu,
+                        "local_cmd": "uftrace record -d local.data %s ./prog" % " ".join(extra),
+                        "network_cmd": "uftrace recv --port P  +  uftrace record --host 127.0.0.1 --port P -d %s %s ./prog" % (nname, " ".join(extra))}
+                nd = os.path.join(recvroot, nname)
+                if rc1 != 0 or rc2 != 0 or not srv.alive():
+                    report("e2e-real-" + vname, dict(case, kind="property-violated-on-implementation",
+                                                     what="record failed: local rc=%d %s / --host rc=%d %s; receiver alive: %s %s" %
+                                                     (rc1, e1[-200:], rc2, e2[-200:], srv.alive(), srv.log()[-200:])))
+                    if not srv.alive():
+                        break
+                    continue
+                # wait for the receiver to have written the info file (sent last) and to be quiet
+                E.wait_received(nd, {"\0": b""}, timeout=3.0)
+                lf, nf = E.read_dir(ld), (E.read_dir(nd) if os.path.isdir(nd) else {})
+                cl, rank_l = E.canon_dir(lf)
+                cn, rank_n = E.canon_dir(nf)
+                bad = None
+                for k in sorted(set(cl) | set(cn)):
+                    if k not in cn:
+                        bad = "%s is in the local directory only" % k
+                    elif k not in cl:
+                        bad = "%s is in the received directory only" % k
+                    elif cl[k] != cn[k]:
+                        a_, b_ = cl[k], cn[k]
+                        if isinstance(a_, tuple) and isinstance(b_, tuple) and len(a_) == len(b_):
+                            j = [j for j in range(len(a_)) if a_[j] != b_[j]][0]
+                            a_, b_ = a_[j], b_[j]
+                        if isinstance(a_, list) and isinstance(b_, list):
+                            j = [j for j in range(min(len(a_), len(b_))) if a_[j] != b_[j]]
+                            a_, b_ = (a_[j[0]], b_[j[0]]) if j else ("%d items" % len(a_), "%d items" % len(b_))
+                        bad = "%s differs (after taking out pids, times, addresses): local %r / received %r" % (
+                            k, str(a_)[:300], str(b_)[:300])
+                    if bad:
+                        break
+                has_sched = any(E.PERCPU.match(k) for k in cl)
+                if not extra and not has_sched:
+                    st["skipped"] = "no perf events in the local recording (perf_event_open not permitted?)"
+                st["real_variants_with_sched_events"] += bool(has_sched)
+                if not bad:
+                    ol, og = E.outputs(uftrace, ld), E.outputs(uftrace, nd)
+                    rl, rn = E.canon_replay(ol["replay"][1], rank_l), E.canon_replay(og["replay"][1], rank_n)
+                    if ol["replay"][0] != 0 or og["replay"][0] != 0:
+                        bad = "replay failed: rc %d / %d %s" % (ol["replay"][0], og["replay"][0], og["replay"][2][:200])
+                    elif rl != rn:
+                        k = [k for k in sorted(set(rl) | set(rn), key=str) if rl.get(k) != rn.get(k)][0]
+                        bad = "replay of task #%s differs: local %r / received %r" % (
+                            k, b" | ".join(x.strip() for x in rl.get(k, []))[:400].decode("latin-1"),
+                            b" | ".join(x.strip() for x in rn.get(k, []))[:400].decode("latin-1"))
+                    elif not extra and has_sched and not any(b"[blocked]" in x for v in rl.values() for x in v):
+                        st["skipped"] = "the local recording shows no scheduling event inside usleep()"
+                    if not bad:
+                        a, b = E.canon_report(ol["report -f call -s func"][1]), E.canon_report(og["report -f call -s func"][1])
+                        if a != b:
+                            bad = "report differs: local %r / received %r" % (a, b)
+                    if not bad:
+                        a, b = E.canon_dump(ol["dump"][1], rank_l), E.canon_dump(og["dump"][1], rank_n)
+                        if a != b:
+                            bad = "dump differs: local events %r / received events %r%s" % (
+                                a[1], b[1], "" if a[0] == b[0] else "; function records differ")
+                    if len(samples) < 6:
+                        samples.append({"e2e_real": vname, "local_files": sorted(cl), "received_files": sorted(cn),
+                                        "replay_main": [x.decode("latin-1") for x in rl.get(0, [])][:12]})
+                if bad:
+                    report("e2e-real-" + vname, dict(case, kind="property-violated-on-implementation", what=bad,
+                                                     local_files={k: len(v or b"") for k, v in lf.items()},
+                                                     received_files={k: len(v or b"") for k, v in nf.items()},
+                                                     theorem="c16_network_equals_local, c16_perf_files_preserved, c16_perf_reader_ignores_empty_files"))
+    finally:
+        srv.stop()
+    if perfidx:
+        f = finding_open(FIND_PERFIDX)
+        what = ("`uftrace dump` labels a per-cpu perf block with the file's position in the glob() result, not with its cpu number "
+                "(perf-cpu13.dat of a 16-cpu machine is announced as \"reading perf-cpu5.dat\"); so the received directory (files "
+                "only for the cpus that sent events) and the local one (a file for every cpu) give different dump output")
+        if f:
+            C.known(ctx, f, "%s %s" % (FIND_PERFIDX, what[:200]))
+        else:
+            for rep in perfidx[:2]:
+                report("perfidx%d%s" % (rep["run"]["idx"], rep["which_directory"]), dict(rep, kind="property-violated-on-implementation", finding=FIND_PERFIDX,
+                                                             what=what, matches_prefix_model=True))
+    st["dump_label_cases_matching_the_printer_as_it_is"] = len(perfidx)
+    return st, samples
+
+
 def run(ctx):
     ok, problems = C.prove(ctx, "C16")
     if not ok:
@@ -853,8 +1142,15 @@ def run(ctx):
                                    "theorem": "c16_one_socket_many_writers_partial (hypothesis false) / "
                                               "c16_prefix_many_writers_witness"})
 
+    # ---- end to end: real uftrace recv, real senders, real analysis commands -------------------
+    t_e2e = time.time()
+    e2e, e2e_samples = run_e2e(ctx, report)
+    e2e["seconds"] = round(time.time() - t_e2e, 1)
+    samples += e2e_samples
+
     ctx.coverage.update({
-        "evaluations": len(ulines) + len(allc) + len(ll) + len(mw_lines),
+        "evaluations": len(ulines) + len(allc) + len(ll) + len(mw_lines) + e2e["synth_runs"] + e2e["synth_cmd_pairs"] + e2e["real_variants"],
+        "end_to_end": e2e,
         "distinct_nontrivial": len(distinct),
         "rule": "unit: every iovec shape (<=3 iovecs of 0..2 bytes) x every schedule of <=3 results from "
                 "{0,1,2,4 bytes, EINTR, error}, then random; read_all: every composition of streams <=4 bytes "
@@ -863,7 +1159,13 @@ def run(ctx):
                 "negative, 0..300000-byte buffers, metadata via send_trace_metadata or via the record.c tail); "
                 "2-3 (thorough: up to 8) clients interleaved at message granularity; 3-5 clients connected at once with "
                 "repeated names (X,Y,X / X,X,X / X,Y,X.old / X,Y,Y,X / prefixes …) x 4 connect/finish orders, then "
-                "random name pools; malformed streams.  The monitor is the expected tree computed from the "
+                "random name pools; malformed streams; kernel / perf data under cpu numbers drawn with holes from 0..4095.  "
+                "End to end: real `uftrace recv` on a loopback port; synthesized recordings (1-3 tasks, 2..300 cpus, events on 1-3 cpus "
+                "chosen with holes, scheduling incl. pre-emption and migration, fork / exit / comm events, an empty perf-cpuN.dat for every "
+                "other cpu) sent by the real senders in chunks of 8..2^20 bytes, every third group by three clients at once: received "
+                "directory = local directory byte for byte (minus the empty per-cpu files), replay / report / dump / dump --chrome / graph / "
+                "info of both byte for byte; real `uftrace record` vs `uftrace record --host` of one program pinned to the highest cpu, "
+                "with and without --no-event, compared after canonicalising pids / times / addresses.  The monitor is the expected tree computed from the "
                 "property (own directory per client, rotation only after its client finished).  "
                 "distinct = distinct model inputs",
         "unit_cases": len(ulines), "net_cases": len(cases), "same_name_cases": len(same),
@@ -886,8 +1188,11 @@ def run(ctx):
         "kernel: a blocking read/write returns between 1 and the requested number of bytes, or EINTR",
         "c16_one_socket_many_writers_partial: each message reaches the socket contiguously "
         "(false for the code as it is, see F-C16-S5)",
-        "command_recv's accept/epoll loop, setup_client_socket and the kernel/perf writers are not run; "
-        "the local path is the real write_buffer_file for trace data and an emulation for the other files",
+        "protocol level: command_recv's accept/epoll loop, setup_client_socket and the kernel/perf writers are not run; "
+        "the local path is the real write_buffer_file for trace data and an emulation for the other files (the end-to-end part runs them)",
+        "end to end: the synthesized local directory is what `uftrace record` leaves (a perf-cpuN.dat per cpu, empty without events); "
+        "two real recordings of one program are compared modulo pids, session ids, time stamps, load addresses, the command line, "
+        "the host's usage figures and scheduling events other than the program's own blocking in usleep()",
     ]
     return C.finish(ctx)
 
